@@ -302,9 +302,7 @@ impl SameReceiver {
                         .assemble(burst_bytes, self.squelch.symbol_count()),
                 )
             }
-            (LinkState::NoCarrier, Some(eom_timeout))
-                if self.input_sample_counter > eom_timeout =>
-            {
+            (_, Some(eom_timeout)) if self.input_sample_counter > eom_timeout => {
                 // Timed out waiting for EOM. Manually emit one.
                 warn!(
                     "voice message timeout ({} s) exceeded; forcing end-of-message now",
